@@ -292,7 +292,13 @@ impl IndexFooter {
     /// Validate footer integrity using MD5
     pub fn is_valid(&self) -> bool {
         let expected = self.calculate_footer_hash();
-        let actual_len = self.footer_hash.len().min(self.footer_hash_bytes as usize);
+        // `footer_hash_bytes` and the stored hash length are read from the file and
+        // may exceed the 8 bytes the hash provides: never slice past either
+        let actual_len = self
+            .footer_hash
+            .len()
+            .min(self.footer_hash_bytes as usize)
+            .min(expected.len());
         self.footer_hash[..actual_len] == expected[..actual_len]
     }
 
@@ -482,7 +488,9 @@ impl ArchiveIndex {
             let mut actual_arr = [0u8; 8];
             let copy_len = expected_hash.len().min(8);
             expected_arr[..copy_len].copy_from_slice(&expected_hash[..copy_len]);
-            actual_arr[..copy_len].copy_from_slice(&footer.footer_hash[..copy_len]);
+            // the stored hash can be shorter than 8 bytes (its length is a footer field)
+            let actual_len = footer.footer_hash.len().min(8);
+            actual_arr[..actual_len].copy_from_slice(&footer.footer_hash[..actual_len]);
             return Err(ArchiveError::ChecksumMismatch {
                 expected: expected_arr,
                 actual: actual_arr,
@@ -1156,7 +1164,9 @@ impl ChunkedArchiveIndex {
             let mut actual_arr = [0u8; 8];
             let copy_len = expected_hash.len().min(8);
             expected_arr[..copy_len].copy_from_slice(&expected_hash[..copy_len]);
-            actual_arr[..copy_len].copy_from_slice(&footer.footer_hash[..copy_len]);
+            // the stored hash can be shorter than 8 bytes (its length is a footer field)
+            let actual_len = footer.footer_hash.len().min(8);
+            actual_arr[..actual_len].copy_from_slice(&footer.footer_hash[..actual_len]);
             return Err(ArchiveError::ChecksumMismatch {
                 expected: expected_arr,
                 actual: actual_arr,
@@ -1164,6 +1174,11 @@ impl ChunkedArchiveIndex {
         }
 
         footer.validate_format()?;
+
+        // Validate file size against footer fields (as `ArchiveIndex::parse` does):
+        // the element count below sizes the TOC and the chunk table
+        let file_size = file.seek(SeekFrom::End(0))?;
+        footer.validate_file_size(file_size)?;
 
         // Calculate actual chunk count based on data entries and records per chunk
         let block_size = (footer.page_size_kb as usize) * 1024; // Convert KB to bytes
